@@ -21,6 +21,8 @@ func init() {
 		},
 		Run: runC05,
 		Controls: []Control{
+			{Name: "late-client-dump-honours-best-only", File: "routingtable/adjRIBIn/adj_rib_in.go", Old: "\t\tpaths := route.Paths()\n\t\tfor _, path := range paths {\n\t\t\t// Ineligible paths are never announced\n", New: "\t\tpaths := route.Paths()\n\t\tif len(paths) > 1 && a.sessionAttrs.RouteServerClient {\n\t\t\tpaths = paths[:1]\n\t\t}\n\t\tfor _, path := range paths {\n\t\t\t// Ineligible paths are never announced\n", Expect: "late-client-gets-every-stored-path"},
+			{Name: "withdrawal-revalidates-the-path", File: "routingtable/adjRIBIn/adj_rib_in.go", Old: "\t\t// If this path wasn't eligible in the first place, we didn't announce it\n\t\tif path.HiddenReason != route.HiddenReasonNone {", New: "\t\t// If this path wasn't eligible in the first place, we didn't announce it\n\t\tif a.validatePath(path) != route.HiddenReasonNone {", Expect: "withdrawal-uses-the-recorded-verdict"},
 			{Name: "policy-rewrites-the-stored-path", File: "routingtable/filter/chain.go", Old: "\tmp := pa.Copy()\n", New: "\tmp := pa\n", Expect: "policy-works-on-a-copy"},
 			{Name: "flush-removes-best-path-only", File: "routingtable/adjRIBIn/adj_rib_in.go", Old: "\t\tfor _, path := range route.Paths() {\n\t\t\ta.removePath(route.Prefix(), path)\n\t\t}\n", New: "\t\ta.removePath(route.Prefix(), route.BestPath())\n", Expect: "flush-removes-every-path"},
 			{Name: "identifier-zero-means-none", File: "routingtable/adjRIBIn/adj_rib_in.go", Old: "\t\tif a.sessionAttrs.AddPathRX {\n\t\t\tif p != nil && path.BGPPath.PathIdentifier != p.BGPPath.PathIdentifier {", New: "\t\tif a.sessionAttrs.AddPathRX && p != nil && p.BGPPath.PathIdentifier != 0 {\n\t\t\tif p != nil && path.BGPPath.PathIdentifier != p.BGPPath.PathIdentifier {", Expect: "path-identifier-is-opaque"},
@@ -94,6 +96,8 @@ func processDef(f *core.Fn, e ast.Expr) *ast.CallExpr {
 }
 
 func runC05(c *core.Ctx) {
+	clientNotifiedUnderTableLock(c, "client-notified-under-table-lock", "routingtable/adjRIBIn", "AdjRIBIn", 3)
+	adjRIBInDumpAndVerdict(c)
 	p := c.P
 	// removing "what the session contributed" finds the path through the identity relation Path.Compare
 	identityOperandCoverage(c, "withdrawal-matches-own-path")
